@@ -265,6 +265,54 @@ def r6_key_value_split(chk, prog):
     chk.require(n >= 1, "searches for '=' in determineNextArg(): %d" % n)
 
 
+def r9_value_word_decision(chk, prog, rule='R9'):
+    """tokeniser: when is the next element 'the rest of the word as a value' (instead of a fresh analysis of the
+    word)?  The guard of the branch of ArgListIterator::operator++ that hands &word[ pos] on as a value is evaluated
+    for every combination of its three inputs: a pending value after '--key=' (mNextIsValue), the one-step request
+    of an argument that requires a value (mRemainingArgumentStringAsValue) and the position inside the word.
+    Expected: after '--key=' the rest is ALWAYS the value (also for an optional value: '--verbose=3'); the one-step
+    request applies only INSIDE a word ('-kvalue') - at a word start the word is analysed normally, so that
+    '-s -f' finds a key where a value is required (missing-value error) instead of swallowing '-f'"""
+    from ..boolshape import Interp, NeedAtom, Unsupported
+    import itertools
+    ops = [f for f in prog.functions if (f.classq or '') == 'celma::prog_args::detail::ArgListIterator'
+           and f.short == 'operator++' and not f.params and f.body is not None]
+    chk.require(ops, 'ArgListIterator::operator++() not instantiated')
+    n = 0
+    for f in ops:
+        # the branch that stores the rest of the current word as value: setValue( index, &mpArgV[ index][ pos])
+        target = None
+        for ifs in (x for x in f.walk() if x.get('k') == 'IfStmt'):
+            kids = [c for c in ifs.get('c', []) if c is not None]
+            if len(kids) < 2:
+                continue
+            then = kids[1]
+            direct = [c for c in walk(then) if c.get('k') in CALL_KINDS and callee_is(c, 'setValue') and
+                      mentions_field(c, 'mArgCharPos')]
+            inner_ifs = [y for y in walk(then) if y.get('k') == 'IfStmt' and y is not ifs]
+            if direct and not any(d in list(walk(y)) for y in inner_ifs for d in direct):
+                target = (ifs, kids[0])
+        if target is None:
+            raise AnalysisBroken('operator++: the branch that hands the rest of the word on as value was not found')
+        ifs, cond = target
+        for nv, rem, pos in itertools.product((0, 1), (0, 1), (0, 3)):
+            it = Interp(f, {'this.mNextIsValue': nv, 'this.mRemainingArgumentStringAsValue': rem,
+                            'this.mArgCharPos': pos})
+            try:
+                v = bool(it.ev(cond))
+            except (NeedAtom, Unsupported) as e:
+                raise AnalysisBroken('operator++: guard of the value branch not interpretable: %s' % getattr(e, 'key', e))
+            want = bool(nv or (rem and pos > 0))
+            n += 1
+            chk.check(v == want, rule, f.name, "the rest of the word is handed on as value: %s [pending '--key=' "
+                      "value: %s, value requested by the argument: %s, %s]" % (
+                          'yes' if want else 'no (normal analysis of the word)', bool(nv), bool(rem),
+                          'inside a word' if pos else 'at a word start'), f.loc(ifs),
+                      'operator++ decides %s' % ('yes' if v else 'no'))
+    chk.require(n >= 8, 'value-word decisions evaluated: %d' % n)
+    return n
+
+
 def run(chk):
     prog, units = rules.prog_args_program()
     chk.units = units
@@ -304,3 +352,15 @@ def run(chk):
     c02.r12_value_mode_table(sub, prog)
     for o in sub.obligations:
         chk.check(o['status'] == 'held', 'R8', o['function'], o['what'], o['where'], o.get('detail', ''))
+    chk.rule('R9', "tokeniser: when the rest of a word is a value (after '--key=' always; a requested value only "
+             "inside a word)", 8)
+    r9_value_word_decision(chk, prog)
+    # R10: a value that was converted and stored is also reported as given (hasValue(): the mandatory check of a
+    # legal line must not fail) - rule shared with C03-R7
+    from . import c03
+    chk.rule('R10', 'an argument that was assigned reports hasValue() (shared with C03-R7)', 5)
+    sub2 = type(chk)(chk.pid, chk.tier)
+    sub2._known = []
+    c03.r7_assigned_means_has_value(sub2, prog)
+    for o in sub2.obligations:
+        chk.check(o['status'] == 'held', 'R10', o['function'], o['what'], o['where'], o.get('detail', ''))
